@@ -9,11 +9,11 @@ Open Scope nat_scope.
 Lemma guard_on : weights_nonfinite_auto_guard = true.
 Proof. reflexivity. Qed.
 
-Lemma bad_weight_value : bad_weight = Q2Qc (1 # 4294967296).
+Lemma bad_weight_value : bad_weight = spec_tiny.
 Proof. apply Qc_is_canon. reflexivity. Qed.
 
 Lemma bad_weight_tiny_positive : (0 < bad_weight)%Qc /\ (bad_weight <= Q2Qc (1 # 1073741824))%Qc.
-Proof. rewrite bad_weight_value. split; vm_compute; congruence. Qed.
+Proof. rewrite bad_weight_value. unfold spec_tiny. split; vm_compute; congruence. Qed.
 
 (* ------------------------------------------------------------------ Ext arithmetic *)
 Lemma Qc_compare_zero_cases : forall a : Qc, (a ?= 0)%Qc = Eq <-> a = 0%Qc.
@@ -146,17 +146,16 @@ Proof.
     assert (N : 1%Qc <> 0%Qc) by (intro H; inversion H).
     rewrite (erecip_fin 1%Qc N). unfold finish_scale. rewrite !emul_fin. cbn [isfinite]. rewrite emul_fin.
     f_equal; ring.
-  - rewrite bad_weight_value, emul_fin. intro H. inversion H.
+  - rewrite bad_weight_value. unfold spec_tiny. rewrite emul_fin. intro H. inversion H.
 Qed.
 
 (* the whole kernel against the specification's scale factor *)
 Lemma power_scale_div_spec : forall a1 a2 w,
   power_scale true a1 a2 w = emul (Fin (spec_scale_div a1 a2)) w.
 Proof.
-  intros a1 a2 w. unfold power_scale. rewrite guard_on.
+  intros a1 a2 w. unfold power_scale. rewrite guard_on. unfold spec_scale_div. rewrite <- bad_weight_value.
   destruct a1 as [x| | |]; try (rewrite bad_weight_div_guarded by (left; right; reflexivity); reflexivity).
   destruct a2 as [y| | |]; try (rewrite bad_weight_div_guarded by (right; right; reflexivity); reflexivity).
-  unfold spec_scale_div.
   destruct (is_zero x) eqn:Ex.
   - apply is_zero_true in Ex. subst. cbn [orb]. apply bad_weight_div_guarded. left. left. reflexivity.
   - destruct (is_zero y) eqn:Ey.
@@ -167,7 +166,7 @@ Qed.
 Lemma power_scale_mul_spec : forall a1 a2 w,
   power_scale false a1 a2 w = emul (Fin (spec_scale_mul a1 a2)) w.
 Proof.
-  intros a1 a2 w. unfold power_scale.
+  intros a1 a2 w. unfold power_scale, spec_scale_mul. rewrite <- bad_weight_value.
   destruct a1 as [x| | |]; try (rewrite bad_weight_mul by (left; reflexivity); reflexivity).
   destruct a2 as [y| | |]; try (rewrite bad_weight_mul by (right; reflexivity); reflexivity).
   apply unscaled_finite.
